@@ -105,7 +105,7 @@ class Net:
     def port_kind(self, obj):
         """'read' / 'write' if obj is an inner memory port (or a list of them), with the memory object."""
         c = self.elt_ctor(obj)
-        if c is not None and c[0] == "call" and c[1][0] == "a" and c[1][2] in ("read_port", "write_port"):
+        if c is not None and c[0] == "call" and c[1][0] == "a" and c[1][2] in ("read_port", "write_port") and c[1][1] != ("self",):
             return c[1][2][:-5], c[1][1]
         return None, None
 
